@@ -907,6 +907,7 @@ type gen struct {
 	left int
 	// per-sequence working sets (small, so that reads hit what was written)
 	wn, wk []string
+	queue  [][]string // follow-ups: read back what was just written / deleted
 }
 
 func newGen(r *rng.R, run *runner, left int) *gen {
@@ -1018,16 +1019,127 @@ func (g *gen) next() []string {
 		return nil
 	}
 	g.left--
+	if len(g.queue) > 0 {
+		op := g.queue[0]
+		g.queue = g.queue[1:]
+		return op
+	}
+	op := g.pick()
+	r := g.r
+	switch op[0] {
+	case "put":
+		if r.Chance(30) {
+			g.queue = append(g.queue, []string{"get", op[1], op[2]})
+		}
+		if r.Chance(10) && op[2] != "-" {
+			g.queue = append(g.queue, []string{"pfx", op[1], op[2][:2]})
+		}
+	case "rm":
+		if r.Chance(40) {
+			g.queue = append(g.queue, []string{"get", op[1], op[2]})
+		}
+	case "clear":
+		if r.Chance(50) {
+			g.queue = append(g.queue, []string{"pfx", op[1], "-"})
+		}
+	case "delb":
+		if r.Chance(40) {
+			g.queue = append(g.queue, []string{"names", op[1]})
+		}
+		if r.Chance(35) { // Bucket() / NewBucket right after DeleteBucket in the same transaction
+			d := g.dst()
+			if r.Bool() {
+				g.queue = append(g.queue, []string{"bkt", d, op[1], op[2]})
+			} else {
+				g.queue = append(g.queue, []string{"new", d, op[1], op[2]})
+			}
+			g.queue = append(g.queue, []string{"pfx", d, "-"})
+		}
+	case "new", "ctop":
+		if r.Chance(25) {
+			if op[0] == "new" {
+				g.queue = append(g.queue, []string{"names", op[2]})
+			} else {
+				g.queue = append(g.queue, []string{"txnames", "w"})
+			}
+		}
+	case "iter":
+		for i, n := 0, r.Intn(5); i < n; i++ {
+			g.queue = append(g.queue, []string{"next", op[1]})
+		}
+	}
+	return op
+}
+
+func (g *gen) pick() []string {
 	run, r := g.run, g.r
+	if i := g.islot(); i >= 0 && r.Chance(25) {
+		if r.Chance(25) {
+			return []string{"seek", strconv.Itoa(i), h(g.key())}
+		}
+		return []string{"next", strconv.Itoa(i)}
+	}
+	if run.wtx == nil && run.rtx != nil { // inside a read transaction only: mostly reads and scans
+		rs := func(s *slot) bool { return !s.w }
+		k := r.Intn(100)
+		s := g.slot(rs)
+		if s < 0 && k >= 60 {
+			if k < 85 {
+				return []string{"begin", "w"}
+			}
+			return []string{"rend"}
+		}
+		switch {
+		case s < 0 || k < 15:
+			if tops := run.committed.children(""); len(tops) > 0 && r.Chance(85) {
+				return []string{"top", "r", g.dst(), h(tops[r.Intn(len(tops))])}
+			}
+			return []string{"top", "r", g.dst(), h(g.name())}
+		case k < 30:
+			if subs := run.committed.children(pid(run.bs[s].names)); len(subs) > 0 && r.Chance(70) {
+				return []string{"bkt", g.dst(), strconv.Itoa(s), h(subs[r.Intn(len(subs))])}
+			}
+			return []string{"bkt", g.dst(), strconv.Itoa(s), h(g.name())}
+		case k < 55:
+			if s2 := g.slot(func(s *slot) bool { return !s.w && len(run.committed.kv[pid(s.names)]) > 0 }); s2 >= 0 {
+				s = s2
+			}
+			d := strconv.Itoa(r.Intn(3))
+			switch m := r.Intn(10); {
+			case m < 3:
+				return []string{"iter", d, strconv.Itoa(s), "0", "-", "-"}
+			case m < 6:
+				return []string{"iter", d, strconv.Itoa(s), "1", h(g.key()), h(g.key())}
+			default:
+				return []string{"iter", d, strconv.Itoa(s), "2", h(g.prefix()), "-"}
+			}
+		case k < 65:
+			return []string{"get", strconv.Itoa(s), h(g.key())}
+		case k < 75:
+			return []string{"pfx", strconv.Itoa(s), h(g.prefix())}
+		case k < 80:
+			return []string{"names", strconv.Itoa(s)}
+		case k < 83:
+			return []string{"txnames", "r"}
+		case k < 86:
+			return []string{"put", strconv.Itoa(s), h(g.key()), h(g.val())}
+		case k < 92:
+			return []string{"rend"}
+		case k < 97:
+			return []string{"begin", "w"}
+		default:
+			return []string{"ubegin"}
+		}
+	}
 	for try := 0; try < 50; try++ {
 		k := r.Intn(1000)
 		anyS := func(*slot) bool { return true }
 		wS := func(s *slot) bool { return s.w }
 		if run.wtx == nil && run.rtx == nil {
 			switch {
-			case k < 350:
+			case k < 300:
 				return []string{"ubegin"}
-			case k < 700:
+			case k < 600:
 				return []string{"begin", "w"}
 			case k < 820:
 				return []string{"begin", "r"}
@@ -1077,6 +1189,9 @@ func (g *gen) next() []string {
 				return []string{"ctop", g.dst(), h(g.name())}
 			}
 		case k < 400:
+			if tops := run.view(w).children(""); len(tops) > 0 && r.Chance(60) {
+				return []string{"top", ws, g.dst(), h(tops[r.Intn(len(tops))])}
+			}
 			return []string{"top", ws, g.dst(), h(g.name())}
 		case k < 470:
 			if s := g.slot(wS); s >= 0 && run.bs[s].names != nil && len(run.bs[s].names) < 5 {
